@@ -197,3 +197,8 @@ def finalize(m, tier):
 
 def replay(ctx, case):
     check(ctx, case['text'], case.get('source', 'replay'))
+
+
+import os as _os  # noqa: E402
+if _os.environ.get('VERIF_NO_PINNED'):
+    PINNED = []
